@@ -373,10 +373,23 @@ pub fn finish(ctx: &Ctx, mut rep: Report, replay: &dyn Fn(&Value) -> Vec<Violati
         if !seen_rules.insert(v.rule.clone()) && confirmed.len() >= 5 {
             continue;
         }
-        let again = catch_unwind(AssertUnwindSafe(|| replay(&v.case)));
-        let reproduced = match again {
-            Ok(vs) => vs.iter().any(|x| x.rule == v.rule),
-            Err(_) => false,
+        // a case that aborted or hung its worker process is re-executed in a process of its own (`vcheck
+        // replay` installs an abort handler and a watchdog that report the reproduction); everything else
+        // is re-executed here
+        let process_level = ctx.id != "C16" && (v.rule.contains("_hang") || v.rule.contains("_abort"));
+        let reproduced = if process_level {
+            let tmp = format!("{}/replays/.confirm-{}-{}.json", verif_root(), ctx.id, std::process::id());
+            let _ = std::fs::create_dir_all(format!("{}/replays", verif_root()));
+            let art = json!({"property": ctx.id, "rule": v.rule, "what": v.what, "case": v.case, "tree": tree_id()});
+            let _ = std::fs::write(&tmp, serde_json::to_string(&art).unwrap());
+            let st = std::process::Command::new(std::env::current_exe().unwrap()).args(["replay", &tmp]).stdout(std::process::Stdio::null()).stderr(std::process::Stdio::null()).status();
+            let _ = std::fs::remove_file(&tmp);
+            matches!(st.map(|s| s.code()), Ok(Some(1)))
+        } else {
+            match catch_unwind(AssertUnwindSafe(|| replay(&v.case))) {
+                Ok(vs) => vs.iter().any(|x| x.rule == v.rule),
+                Err(_) => false,
+            }
         };
         if !reproduced {
             if v.case.get("timing_dependent").and_then(|t| t.as_bool()) == Some(true) {
